@@ -27,10 +27,38 @@ def adv_cases(rng, tier):
     return out
 
 
+def block_cases(rng, tier):
+    """an IT instruction (every legal firstcond/mask) followed by four MOVS Rk,#imm, for sampled NZCV values: which of the
+    four execute, no flag change inside the block, ITSTATE empty afterwards (whole steps of the implementation against
+    Corr/ItBlockSpec.v)"""
+    import stepgen
+    t = statelib.load_index(C.GEN)['tables']
+    icpsr = t['sys_names'].index('cpsr')
+    out = []
+    for fc in range(15):
+        for mask in range(1, 16):
+            if fc == 14 and bin(mask).count('1') != 1:
+                continue                                  # AL with an else part is UNPREDICTABLE
+            for nzcv in (rng.sample(range(16), 2) if tier == 'quick' else range(16)):
+                st = stepgen.random_state(rng, t, thumb=True, mpu=False)
+                st['sys'][icpsr] = (st['sys'][icpsr] & ~((0xF << 28) | (0x3F << 10) | (3 << 25))) | (nzcv << 28)
+                pc = st['R'][33]
+                stepgen.put_instr(st, 0xBF00 | (fc << 4) | mask, 16, at=pc)
+                imms = [rng.randrange(1, 256) for _ in range(4)]
+                for k in range(4):
+                    stepgen.put_instr(st, 0x2000 | (k << 8) | imms[k], 16, at=pc + 2 + 2 * k)
+                olds = [st['R'][k] for k in range(4)]
+                lst = lambda l: '[' + '; '.join(str(x) for x in l) + ']'
+                out.append({'impl': {'kind': 'it_block', 'state': stepgen.clean(st), 'steps': 5}, 'model': None,
+                            'spec': f'(0 :: it_block_spec {fc} {mask} {nzcv} {lst(imms)} {lst(olds)})', 'label': 'it_block', 'nontrivial': True})
+    return out
+
+
 def units():
     return [
         Unit('it_advance', ['C08_advance', 'C08_in_it_block', 'C08_last_in_it_block'], ['Proofs/CondProofs.v'],
              ['registers.Registers.it_advance', 'arm_v6.ArmV6.in_it_block', 'arm_v6.ArmV6.last_in_it_block'],
              adv_cases, IMPORTS, SPEC_IMPORTS),
         Unit('it_schedule', ['C08_schedule', 'C08_advance_all'], ['Proofs/ITSchedule.v'], [], None, IMPORTS, SPEC_IMPORTS),
+        Unit('it_block_steps', [], [], [], block_cases, IMPORTS, 'From ArmV Require Import Spec.Pseudocode Spec.Arch Corr.ItBlockSpec.'),
     ]
